@@ -25,7 +25,19 @@
 // never an access.  The obligations below therefore carry the harness precondition `formed pointers
 // stay <= one-past-the-end` (in_alloc); `obs_ptr_add_leaves_allocation` reproduces the observation.
 //
-// Bounded by MAXBUF (geometry); complete over element values, offsets, strides and ranges within it.
+// Proof structure (modular, to keep each SAT problem small):
+//   * lemma_* harnesses are pure arithmetic over Geo (no code under test): a sub-rectangle of a
+//     well-formed grid is well-formed and maps (x, y) -> (x0 + x, y0 + y); cell() is injective on a
+//     well-formed grid; the rectangles produced by split / groups partition the parent; merge of
+//     adjacent well-formed grids is well-formed and is their union.  They enumerate the stride
+//     concretely (0..=MAXV) so that every product is linear.
+//   * the code harnesses establish, on the real code, that each returned grid has EXACTLY the
+//     specified Geo (pointer and all fields), then `use_lemma!` the well-formedness of that Geo
+//     (discharged by the lemma harness named at the use site, same value domain) and exercise every
+//     accessor of the returned grid under CBMC's pointer checks.
+// Bounded by MAXBUF (geometry) and MAXV (probe values: every dimension, coordinate, offset and stride
+// is a 6-bit value; one-row grids with any usize stride are covered by ms_from_buf_*); complete over
+// element values and everything else within the bound.
 use super::*;
 use std::ops::Bound;
 
@@ -62,13 +74,23 @@ impl<V: Elem> Backing<V> {
 }
 
 pub(crate) fn any_len() -> usize {
-    let len = kani::any::<u8>() as usize;
+    let len = small();
     kani::assume(len <= MAXBUF);
     len
 }
 
+/// probe values: 0..=63 (everything that fits a MAXBUF-element buffer, plus out-of-range probes)
+pub(crate) const MAXV: usize = 63;
 pub(crate) fn small() -> usize {
-    kani::any::<u8>() as usize
+    (kani::any::<u8>() & 63) as usize
+}
+
+/// Use a fact proved by the named lemma harness (same value domain).
+macro_rules! use_lemma {
+    ($lemma:ident, $c:expr) => {{
+        let _discharged_by = $lemma; // keeps the name checked by the compiler
+        kani::assume($c);
+    }};
 }
 
 #[derive(Clone, Copy, PartialEq, Eq)]
@@ -100,16 +122,11 @@ impl Geo {
     }
 }
 
-/// A symbolic well-formed geometry.  Dimensions and offsets come from 8-bit values (wf bounds them by
-/// MAXBUF anyway); the stride of a grid with at most one row is not constrained by the buffer and ranges
-/// over all of usize.
+/// A symbolic well-formed geometry (6-bit values; wf bounds everything by MAXBUF except the stride of
+/// a one-row grid, which ranges over 0..=MAXV here and over all of usize in ms_from_buf_*).
 pub(crate) fn any_geo(len: usize) -> Geo {
-    let (w, h, off, s8) = (small(), small(), small(), small());
-    let big: usize = kani::any();
-    let stride = if h <= 1 { big } else { s8 };
-    kani::assume(w <= MAXBUF && h <= MAXBUF);
-    kani::assume(w == 0 || w <= stride); // asserted by MutableSubgrid::new
-    let g = Geo { off, w, h, stride };
+    let g = Geo { off: small(), w: small(), h: small(), stride: small() };
+    kani::assume(g.w == 0 || g.w <= g.stride); // asserted by MutableSubgrid::new
     kani::assume(g.wf(len));
     g
 }
@@ -133,8 +150,6 @@ fn any_grid<'a, V: Elem>(buf: &'a mut [V]) -> (MutableSubgrid<'a, V>, Geo, *mut 
 /// Exercise every accessor of `g` at symbolic coordinates; `geo` is its expected abstract view.
 fn check_access<V: Elem>(g: &mut MutableSubgrid<'_, V>, geo: &Geo, base: *mut V, len: usize) {
     assert!(geo_of(g, base, geo), "[C02] subgrid has exactly the specified geometry (exact child -> parent mapping)");
-    assert!(geo.empty() || (geo.w <= geo.stride && geo.off + (geo.h - 1) * geo.stride + geo.w <= len),
-        "[C02] every addressable element of the subgrid is an element of the backing buffer, rows do not overlap");
     assert!(g.width() == geo.w && g.height() == geo.h);
     let (x, y) = (small(), small());
     let inside = x < geo.w && y < geo.h;
@@ -207,6 +222,158 @@ fn check_access<V: Elem>(g: &mut MutableSubgrid<'_, V>, geo: &Geo, base: *mut V,
 }
 
 // ------------------------------------------------------------------------------------------------
+// Lemmas: pure arithmetic over Geo, stride enumerated concretely
+// ------------------------------------------------------------------------------------------------
+fn any_geo_with_stride(len: usize, stride: usize) -> Geo {
+    let g = Geo { off: small(), w: small(), h: small(), stride };
+    kani::assume(g.w == 0 || g.w <= g.stride);
+    kani::assume(g.wf(len));
+    g
+}
+
+/// A sub-rectangle (x0, y0, w, h) of a well-formed grid: well-formed (if not empty), element (x, y)
+/// is parent element (x0 + x, y0 + y), which is inside the parent.
+#[kani::proof]
+#[kani::unwind(66)]
+fn lemma_sub() {
+    let len = any_len();
+    let (x0, y0, w, h, x, y) = (small(), small(), small(), small(), small(), small());
+    let mut stride = 0;
+    while stride <= MAXV {
+        let p = any_geo_with_stride(len, stride);
+        if x0 + w <= p.w && y0 + h <= p.h {
+            let c = p.sub(x0, y0, w, h);
+            assert!(c.empty() || c.wf(len), "[C02] lemma_sub: a non-empty sub-rectangle of a well-formed grid is well-formed");
+            if x < w && y < h {
+                assert!(x0 + x < p.w && y0 + y < p.h && c.cell(x, y) == p.cell(x0 + x, y0 + y) && c.cell(x, y) < len,
+                    "[C02] lemma_sub: child (x, y) is parent (x0 + x, y0 + y), a buffer element");
+            }
+        }
+        stride += 1;
+    }
+}
+
+/// cell() is injective on a well-formed grid: distinct coordinates are distinct buffer elements.
+/// Hence rectangles that are disjoint in parent coordinates are disjoint in memory.
+#[kani::proof]
+#[kani::unwind(66)]
+fn lemma_injective() {
+    let len = any_len();
+    let (x1, y1, x2, y2) = (small(), small(), small(), small());
+    let mut stride = 0;
+    while stride <= MAXV {
+        let p = any_geo_with_stride(len, stride);
+        if x1 < p.w && y1 < p.h && x2 < p.w && y2 < p.h && (x1 != x2 || y1 != y2) {
+            assert!(p.cell(x1, y1) != p.cell(x2, y2), "[C02] lemma_injective: distinct coordinates of a well-formed grid are distinct buffer elements");
+        }
+        stride += 1;
+    }
+}
+
+/// split at `at`: the two rectangles [0, at) and [at, ..) partition the parent's coordinates
+/// (linear; with lemma_sub and lemma_injective: inside the parent, disjoint in memory, cover).
+#[kani::proof]
+fn lemma_split_partition() {
+    let (pw, ph, at, px, py) = (small(), small(), small(), small(), small());
+    let vertical: bool = kani::any();
+    kani::assume(at <= if vertical { ph } else { pw });
+    // rectangles in parent coordinates: (x0, y0, w, h)
+    let (a, b) = if vertical { ((0, 0, pw, at), (0, at, pw, ph - at)) } else { ((0, 0, at, ph), (at, 0, pw - at, ph)) };
+    let inside = |r: (usize, usize, usize, usize)| px >= r.0 && px - r.0 < r.2 && py >= r.1 && py - r.1 < r.3;
+    assert!(a.0 + a.2 <= pw && a.1 + a.3 <= ph && b.0 + b.2 <= pw && b.1 + b.3 <= ph, "[C02] lemma_split: both parts are sub-rectangles of the parent");
+    if px < pw && py < ph {
+        assert!(inside(a) != inside(b), "[C02] lemma_split: every parent coordinate is in exactly one part");
+    } else {
+        assert!(!inside(a) && !inside(b));
+    }
+}
+
+/// groups: rectangle (gx, gy) = [min(gx*gw, w), +min(gw, rest)) x [min(gy*gh, h), +min(gh, rest)):
+/// sub-rectangles of the parent, pairwise disjoint in coordinates; (px / gw, py / gh) contains (px, py).
+#[kani::proof]
+fn lemma_groups_partition() {
+    let (pw, ph, gw, gh) = (small(), small(), small(), small());
+    kani::assume(gw >= 1 && gh >= 1);
+    let rect = |gx: usize, gy: usize| {
+        let (x0, y0) = ((gx * gw).min(pw), (gy * gh).min(ph));
+        (x0, y0, (pw - x0).min(gw), (ph - y0).min(gh))
+    };
+    let (gx, gy, hx, hy, px, py) = (small(), small(), small(), small(), small(), small());
+    let (a, b) = (rect(gx, gy), rect(hx, hy));
+    let inside = |r: (usize, usize, usize, usize)| px >= r.0 && px - r.0 < r.2 && py >= r.1 && py - r.1 < r.3;
+    assert!(a.0 + a.2 <= pw && a.1 + a.3 <= ph, "[C02] lemma_groups: every group is a sub-rectangle of the parent");
+    if gx != hx || gy != hy {
+        assert!(!(inside(a) && inside(b)), "[C02] lemma_groups: distinct groups share no coordinate");
+    }
+    if px < pw && py < ph {
+        let (cx, cy) = (((px as u8) / (gw as u8)) as usize, ((py as u8) / (gh as u8)) as usize);
+        let c = rect(cx, cy);
+        assert!(inside(c) && px - c.0 == px - cx * gw && py - c.1 == py - cy * gh,
+            "[C02] lemma_groups: (px, py) is element (px % gw, py % gh) of group (px / gw, py / gh)");
+        assert!(cx < (pw as u8).div_ceil(gw as u8) as usize && cy < (ph as u8).div_ceil(gh as u8) as usize,
+            "[C02] lemma_groups: ceil(w / gw) x ceil(h / gh) groups cover the parent");
+    }
+}
+
+/// merge: adjacent well-formed grids give a well-formed grid that is exactly their union.
+#[kani::proof]
+#[kani::unwind(66)]
+fn lemma_merge() {
+    let len = any_len();
+    let vertical: bool = kani::any();
+    let (x, y) = (small(), small());
+    let mut stride = 0;
+    while stride <= MAXV {
+        let a = any_geo_with_stride(len, stride);
+        let b = any_geo_with_stride(len, stride);
+        let m = if vertical {
+            kani::assume(a.w == b.w && b.off == a.cell(0, a.h));
+            Geo { off: a.off, w: a.w, h: a.h + b.h, stride }
+        } else {
+            kani::assume(a.h == b.h && b.off == a.cell(a.w, 0) && a.w + b.w <= stride);
+            Geo { off: a.off, w: a.w + b.w, h: a.h, stride }
+        };
+        assert!(m.wf(len), "[C02] lemma_merge: the union of adjacent well-formed grids is well-formed");
+        if x < m.w && y < m.h {
+            let expect = if vertical {
+                if y < a.h { a.cell(x, y) } else { b.cell(x, y - a.h) }
+            } else if x < a.w {
+                a.cell(x, y)
+            } else {
+                b.cell(x - a.w, y)
+            };
+            assert!(m.cell(x, y) == expect, "[C02] lemma_merge: the merged grid is exactly the union of the two parts");
+        }
+        stride += 1;
+    }
+}
+
+/// vector view of an f32 grid (4 lanes): origin, width and stride divisible by 4 => the grid of
+/// vectors over len / 4 vector slots is well-formed and vector (x, y) is f32 elements (4x..4x+3, y).
+#[kani::proof]
+#[kani::unwind(18)]
+fn lemma_vectored() {
+    let len = any_len();
+    let pad = small(); // elements before the buffer inside the 16-byte aligned backing object
+    kani::assume((pad + len) % 4 == 0);
+    let (x, y) = (small(), small());
+    let mut s4 = 0;
+    while s4 <= MAXV / 4 {
+        let g = any_geo_with_stride(len, s4 * 4);
+        if (pad + g.off) % 4 == 0 && g.w % 4 == 0 && !g.empty() {
+            // in vector units, relative to the aligned object start
+            let v = Geo { off: (pad + g.off) / 4, w: g.w / 4, h: g.h, stride: s4 };
+            assert!(v.wf((pad + len) / 4), "[C02] lemma_vectored: the vector grid is well-formed over the buffer in vector units");
+            if x < v.w && y < v.h {
+                assert!(v.cell(x, y) * 4 == pad + g.cell(4 * x, y) && g.cell(4 * x + 3, y) < len,
+                    "[C02] lemma_vectored: the 4 lanes of vector (x, y) are f32 elements (4x..4x+3, y), all buffer elements");
+            }
+        }
+        s4 += 1;
+    }
+}
+
+// ------------------------------------------------------------------------------------------------
 // from_buf / new / empty
 // ------------------------------------------------------------------------------------------------
 fn from_buf_ok<V: Elem>() {
@@ -214,23 +381,24 @@ fn from_buf_ok<V: Elem>() {
     let len = any_len();
     let buf = data.window(len);
     let base = buf.as_mut_ptr();
-    let (w, h, s8) = (small(), small(), small());
+    let (w, h, s6) = (small(), small(), small());
     let big: usize = kani::any();
-    let stride = if h <= 1 { big } else { s8 };
+    let stride = if h <= 1 { big } else { s6 }; // one-row grids: any stride at all
     // documented precondition of from_buf
     kani::assume(w <= stride);
     if w == 0 || h == 0 {
         kani::assume(len == 0);
     } else {
-        kani::assume(h <= MAXBUF && (h == 1 || stride <= MAXBUF));
         kani::assume(stride * (h - 1) + w <= len);
     }
     let mut g = MutableSubgrid::from_buf(buf, w, h, stride);
     assert!(g.split_base.is_none());
     let geo = Geo { off: 0, w, h, stride };
+    assert!(geo.empty() || (geo.w <= geo.stride && (geo.h - 1) * geo.stride + geo.w <= len),
+        "[C02] every addressable element of the grid is an element of the buffer, rows do not overlap");
     check_access(&mut g, &geo, base, len);
     kani::cover!(h > 1 && w > 1 && stride > w && len == MAXBUF);
-    kani::cover!(len == 0);
+    kani::cover!(len == 0 && h > 0);
     kani::cover!(h == 1 && stride > MAXBUF);
     let e = MutableSubgrid::<V>::empty();
     assert!(e.width() == 0 && e.height() == 0 && e.try_get_ref(0, 0).is_none() && e.try_get_row(0).is_none(),
@@ -284,16 +452,13 @@ fn subgrid_ok<V: Elem>() {
     let (left, right, top, bottom) = (start_of(&xs), end_of(&xe, geo.w), start_of(&ys), end_of(&ye, geo.h));
     // documented precondition: the range is inside the grid
     kani::assume(left <= right && right <= geo.w && top <= bottom && bottom <= geo.h);
+    // the specified result: the sub-rectangle (left, top, right - left, bottom - top) -- inside the parent by lemma_sub
     let cgeo = geo.sub(left, top, right - left, bottom - top);
     kani::assume(cgeo.off <= len); // in_alloc, see header (only restricts empty results)
+    use_lemma!(lemma_sub, cgeo.empty() || cgeo.wf(len));
     let mut c = g.subgrid((xs, xe), (ys, ye));
+    assert!(c.split_base.is_none());
     check_access(&mut c, &cgeo, base, len);
-    // inside the parent: child (x, y) is parent (left + x, top + y)
-    let (x, y) = (small(), small());
-    if x < cgeo.w && y < cgeo.h {
-        assert!(left + x < geo.w && top + y < geo.h && cgeo.cell(x, y) == geo.cell(left + x, top + y),
-            "[C02] subgrid element (x, y) is parent element (left + x, top + y)");
-    }
     kani::cover!(cgeo.w > 0 && cgeo.h > 1 && left > 0 && top > 0);
     kani::cover!(cgeo.w == 0);
     kani::cover!(cgeo.h == 0);
@@ -314,28 +479,6 @@ fn subgrid_rejects<V: Elem>() {
 // ------------------------------------------------------------------------------------------------
 // split_horizontal / split_vertical (borrowing and in place)
 // ------------------------------------------------------------------------------------------------
-/// children a (origin at parent (0,0)) and b (origin at parent (bx, by)) partition the parent
-fn check_partition(parent: &Geo, a: &Geo, b: &Geo, bx: usize, by: usize) {
-    // cover: every parent element belongs to exactly one child, at the mapped coordinate
-    let (px, py) = (small(), small());
-    if px < parent.w && py < parent.h {
-        let in_a = px < a.w && py < a.h;
-        let in_b = px >= bx && py >= by && px - bx < b.w && py - by < b.h;
-        assert!(in_a != in_b, "[C02] the two parts cover the parent and do not share an element");
-        if in_a {
-            assert!(a.cell(px, py) == parent.cell(px, py));
-        } else {
-            assert!(b.cell(px - bx, py - by) == parent.cell(px, py));
-        }
-    }
-    // disjoint: no element of a has the address of an element of b
-    let (x1, y1, x2, y2) = (small(), small(), small(), small());
-    if x1 < a.w && y1 < a.h && x2 < b.w && y2 < b.h {
-        assert!(a.cell(x1, y1) != b.cell(x2, y2), "[C02] the two parts are disjoint in memory");
-        assert!(x1 < parent.w && y1 < parent.h && bx + x2 < parent.w && by + y2 < parent.h, "[C02] both parts lie inside the parent");
-    }
-}
-
 fn split_ok<V: Elem>(vertical: bool, in_place: bool) {
     let mut data = Backing::<V>::any();
     let (mut g, geo, base, len) = any_grid(data.window(any_len()));
@@ -343,16 +486,20 @@ fn split_ok<V: Elem>(vertical: bool, in_place: bool) {
     // documented precondition
     kani::assume(at <= if vertical { geo.h } else { geo.w });
     let expect_base = g.split_base.unwrap_or(g.ptr.cast());
-    let (ageo, bgeo, bx, by) = if vertical {
-        (geo.sub(0, 0, geo.w, at), geo.sub(0, at, geo.w, geo.h - at), 0, at)
+    // the specified result: the two rectangles of lemma_split_partition (inside the parent, disjoint, covering)
+    let (ageo, bgeo) = if vertical {
+        (geo.sub(0, 0, geo.w, at), geo.sub(0, at, geo.w, geo.h - at))
     } else {
-        (geo.sub(0, 0, at, geo.h), geo.sub(at, 0, geo.w - at, geo.h), at, 0)
+        (geo.sub(0, 0, at, geo.h), geo.sub(at, 0, geo.w - at, geo.h))
     };
     kani::assume(bgeo.off <= len); // in_alloc, see header (only restricts an empty second part)
+    use_lemma!(lemma_sub, (ageo.empty() || ageo.wf(len)) && (bgeo.empty() || bgeo.wf(len)));
+    let first: bool = kani::any();
     if in_place {
         let mut b = if vertical { g.split_vertical_in_place(at) } else { g.split_horizontal_in_place(at) };
         assert!(g.split_base == Some(expect_base) && b.split_base == Some(expect_base), "[C02] both parts remember the split base");
-        if kani::any() {
+        assert!(geo_of(&g, base, &ageo) && geo_of(&b, base, &bgeo), "[C02] split parts have exactly the specified geometry");
+        if first {
             check_access(&mut g, &ageo, base, len);
         } else {
             check_access(&mut b, &bgeo, base, len);
@@ -360,14 +507,15 @@ fn split_ok<V: Elem>(vertical: bool, in_place: bool) {
     } else {
         let (mut a, mut b) = if vertical { g.split_vertical(at) } else { g.split_horizontal(at) };
         assert!(a.split_base == Some(expect_base) && b.split_base == Some(expect_base), "[C02] both parts remember the split base");
-        if kani::any() {
+        assert!(geo_of(&a, base, &ageo) && geo_of(&b, base, &bgeo), "[C02] split parts have exactly the specified geometry");
+        if first {
             check_access(&mut a, &ageo, base, len);
         } else {
             check_access(&mut b, &bgeo, base, len);
         }
     }
-    check_partition(&geo, &ageo, &bgeo, bx, by);
-    kani::cover!(at > 0 && ageo.w > 0 && ageo.h > 0 && bgeo.w > 0 && bgeo.h > 1);
+    kani::cover!(at > 0 && !ageo.empty() && !bgeo.empty() && bgeo.h > 1 && first);
+    kani::cover!(at > 0 && !ageo.empty() && !bgeo.empty() && bgeo.h > 1 && !first);
     kani::cover!(at == 0);
     kani::cover!(bgeo.empty() && !geo.empty());
 }
@@ -419,7 +567,7 @@ fn merge_ok<V: Elem>(vertical: bool) {
 }
 
 /// The guard: for ANY two well-formed grids (any split_base), merge returns only if the second is
-/// exactly the right/bottom neighbour, and then the result is exactly the union of the two.
+/// exactly the right/bottom neighbour; then the result is the Geo of lemma_merge (exactly the union).
 fn merge_guard<V: Elem>(vertical: bool) {
     let mut data = Backing::<V>::any();
     let len = any_len();
@@ -437,33 +585,22 @@ fn merge_guard<V: Elem>(vertical: bool) {
     };
     let mut a = mk(&ag);
     let b = mk(&bg);
-    if vertical {
+    let m = if vertical {
         kani::assume(ag.cell(0, ag.h) <= len); // in_alloc: the guard itself computes this pointer
         a.merge_vertical_in_place(b);
         assert!(ag.stride == bg.stride && ag.w == bg.w && bg.off == ag.cell(0, ag.h),
             "[C02] merge_vertical accepts only the bottom neighbour (same stride, same width, adjacent)");
-        let m = Geo { off: ag.off, w: ag.w, h: ag.h + bg.h, stride: ag.stride };
-        let (x, y) = (small(), small());
-        if x < m.w && y < m.h {
-            assert!(m.cell(x, y) == if y < ag.h { ag.cell(x, y) } else { bg.cell(x, y - ag.h) },
-                "[C02] the merged grid is exactly the union of the two parts");
-        }
-        check_access(&mut a, &m, base, len);
-        kani::cover!(!ag.empty() && !bg.empty());
+        Geo { off: ag.off, w: ag.w, h: ag.h + bg.h, stride: ag.stride }
     } else {
         kani::assume(ag.cell(ag.w, 0) <= len); // in_alloc
         a.merge_horizontal_in_place(b);
         assert!(ag.stride == bg.stride && ag.h == bg.h && bg.off == ag.cell(ag.w, 0) && ag.w + bg.w <= ag.stride,
             "[C02] merge_horizontal accepts only the right neighbour (same stride, same height, adjacent, rows still fit the stride)");
-        let m = Geo { off: ag.off, w: ag.w + bg.w, h: ag.h, stride: ag.stride };
-        let (x, y) = (small(), small());
-        if x < m.w && y < m.h {
-            assert!(m.cell(x, y) == if x < ag.w { ag.cell(x, y) } else { bg.cell(x - ag.w, y) },
-                "[C02] the merged grid is exactly the union of the two parts");
-        }
-        check_access(&mut a, &m, base, len);
-        kani::cover!(!ag.empty() && !bg.empty() && ag.h > 1);
-    }
+        Geo { off: ag.off, w: ag.w + bg.w, h: ag.h, stride: ag.stride }
+    };
+    use_lemma!(lemma_merge, m.empty() || m.wf(len));
+    check_access(&mut a, &m, base, len);
+    kani::cover!(!ag.empty() && !bg.empty() && ag.h > 1);
 }
 
 // ------------------------------------------------------------------------------------------------
@@ -475,9 +612,9 @@ fn groups_ok<V: Elem>(fixed: bool) {
     let mut data = Backing::<V>::any();
     let (g, geo, base, len) = any_grid(data.window(any_len()));
     let (gw, gh) = (small(), small());
-    kani::assume(gw >= 1 && gh >= 1 && gw <= MAXBUF && gh <= MAXBUF); // documented precondition: nonzero
+    kani::assume(gw >= 1 && gh >= 1); // documented precondition: nonzero
     let expect_base = g.split_base.unwrap_or(g.ptr.cast());
-    // 8-bit division: the group grid
+    // the group grid (8-bit division)
     let (num_cols, num_rows) = if fixed {
         (small(), small())
     } else {
@@ -496,50 +633,18 @@ fn groups_ok<V: Elem>(fixed: bool) {
         g.into_groups(gw, gh)
     };
     assert!(groups.len() == num_cols * num_rows, "[C02] one group per cell of the group grid, row-first");
-    let origin = |gx: usize, gy: usize| ((gx * gw).min(geo.w), (gy * gh).min(geo.h));
-    let geo_at = |gx: usize, gy: usize| {
-        let (x0, y0) = origin(gx, gy);
-        geo.sub(x0, y0, (geo.w - x0).min(gw), (geo.h - y0).min(gh))
-    };
-    // any group: exact geometry, inside the parent, accessors safe
+    // any group: exactly the rectangle of lemma_groups_partition (inside the parent, pairwise disjoint, covering)
     let (gx, gy) = (small(), small());
     if gx < num_cols && gy < num_rows {
-        let cgeo = geo_at(gx, gy);
+        let (x0, y0) = ((gx * gw).min(geo.w), (gy * gh).min(geo.h));
+        let cgeo = geo.sub(x0, y0, (geo.w - x0).min(gw), (geo.h - y0).min(gh));
+        use_lemma!(lemma_sub, cgeo.empty() || cgeo.wf(len));
         let grp = &mut groups[gy * num_cols + gx];
         assert!(grp.split_base == Some(expect_base));
         check_access(grp, &cgeo, base, len);
-        let (x0, y0) = origin(gx, gy);
-        let (x, y) = (small(), small());
-        if x < cgeo.w && y < cgeo.h {
-            assert!(x0 + x < geo.w && y0 + y < geo.h && cgeo.cell(x, y) == geo.cell(x0 + x, y0 + y),
-                "[C02] group element (x, y) is parent element (gx * gw + x, gy * gh + y)");
-        }
-        // pairwise disjoint
-        let (hx, hy) = (small(), small());
-        if hx < num_cols && hy < num_rows && (hx != gx || hy != gy) {
-            let dgeo = geo_at(hx, hy);
-            let (x2, y2) = (small(), small());
-            if x < cgeo.w && y < cgeo.h && x2 < dgeo.w && y2 < dgeo.h {
-                assert!(cgeo.cell(x, y) != dgeo.cell(x2, y2), "[C02] distinct groups are disjoint in memory");
-            }
-        }
         kani::cover!(!cgeo.empty() && gx > 0 && gy > 0);
-        kani::cover!(!cgeo.empty() && cgeo.w < gw && cgeo.h < gh); // truncated edge group
+        kani::cover!(!cgeo.empty() && cgeo.w < gw && cgeo.h < gh && gx > 0); // truncated edge group
         kani::cover!(cgeo.empty() && !geo.empty());
-    }
-    // cover: every parent element is in the group (px / gw, py / gh) -- always for into_groups
-    let (px, py) = (small(), small());
-    if px < geo.w && py < geo.h {
-        let (cx, cy) = (((px as u8) / (gw as u8)) as usize, ((py as u8) / (gh as u8)) as usize);
-        if !fixed {
-            assert!(cx < num_cols && cy < num_rows, "[C02] into_groups covers the whole parent");
-        }
-        if cx < num_cols && cy < num_rows {
-            let cgeo = geo_at(cx, cy);
-            let (lx, ly) = (px - cx * gw, py - cy * gh);
-            assert!(lx < cgeo.w && ly < cgeo.h && cgeo.cell(lx, ly) == geo.cell(px, py),
-                "[C02] parent element (px, py) is element (px % gw, py % gh) of group (px / gw, py / gh)");
-        }
     }
 }
 
@@ -589,9 +694,11 @@ fn swap_rejects<V: Elem>() {
 fn reborrow_ok<V: Elem>() {
     let mut data = Backing::<V>::any();
     let (mut g, geo, base, len) = any_grid(data.window(any_len()));
-    {
+    if kani::any() {
         let mut r = g.borrow_mut();
+        assert!(r.split_base.is_none());
         check_access(&mut r, &geo, base, len);
+        return;
     }
     let s = g.as_shared();
     assert!(s.width() == geo.w && s.height() == geo.h);
@@ -648,23 +755,25 @@ fn as_vectored_ok() {
     let mut data = Backing::<f32>::any();
     let (mut g, geo, base, len) = any_grid(data.window(any_len()));
     let split_base = g.split_base;
-    // the backing array is 32-byte aligned and MAXBUF % 4 == 0: element index parity decides alignment
+    // the backing array is 32-byte aligned and MAXBUF % 4 == 0: the element index decides alignment
     let aligned = (MAXBUF - len + geo.off) % 4 == 0;
     match g.as_vectored::<__m128>() {
         Some(mut v) => {
             assert!(aligned && geo.w % 4 == 0 && geo.stride % 4 == 0, "[C02] as_vectored is Some only for an aligned, lane-multiple geometry");
             assert!(v.ptr.as_ptr() == base.wrapping_add(geo.off) as *mut __m128 && v.width == geo.w / 4 && v.height == geo.h
                 && v.stride == geo.stride / 4 && v.split_base == split_base, "[C02] vector view: same origin, width and stride in vectors");
+            // lemma_vectored: vector (x, y) is f32 elements (4x .. 4x+3, y) of the grid, all inside the buffer
             let (x, y) = (small(), small());
+            use_lemma!(lemma_vectored, !(x < geo.w / 4 && y < geo.h) || geo.cell(4 * x + 3, y) < len);
             match v.try_get_mut(x, y) {
                 Some(r) => {
                     assert!(x < geo.w / 4 && y < geo.h);
-                    // the 4 lanes of vector (x, y) are f32 elements (4x .. 4x+3, y) of the grid
-                    assert!(geo.cell(4 * x + 3, y) < len && std::ptr::eq(r as *const __m128 as *const f32, base.wrapping_add(geo.cell(4 * x, y)) as *const f32),
-                        "[C02] every lane of every vector element is an element of the f32 grid");
-                    let lanes: [f32; 4] = unsafe { std::mem::transmute(*r) };
+                    assert!(std::ptr::eq(r as *const __m128 as *const f32, base.wrapping_add(geo.cell(4 * x, y)) as *const f32),
+                        "[C02] vector element (x, y) starts at f32 element (4x, y)");
+                    let lanes: [f32; 4] = unsafe { std::mem::transmute(*r) }; // 16-byte read under CBMC's pointer check
                     let first = unsafe { base.add(geo.cell(4 * x, y)).read() };
                     assert!(lanes[0].to_bits() == first.to_bits());
+                    *r = unsafe { std::mem::transmute([0f32; 4]) }; // 16-byte write under CBMC's pointer check
                 }
                 None => assert!(!(x < geo.w / 4 && y < geo.h)),
             }
